@@ -85,6 +85,12 @@ func checkC01(c *Ctx) {
 			c.Sample(map[string]interface{}{"family": "GenCtl", "source": src})
 		}
 	}
+	// the repository's own test inputs, in emitter-only mode (the parser's AST is the source side)
+	cc, acc, skip := corpusCases(c)
+	cases = append(cases, cc...)
+	c.Cov("corpus_literals_accepted", int64(acc))
+	c.Cov("corpus_literals_outside_domain", int64(skip))
+	c.Cov("corpus_cases", int64(len(cc)))
 	c.Cov("genctl_programs", int64(len(famProgs)))
 	c.CovSet("genctl_one_exhaustive", len(fam["one.ndjson"]))
 	st := RunRefine(c, cases, 6000, "emitted assembly does not behave like the structured source", nil)
